@@ -71,6 +71,18 @@ def sortAny (srt : Sort.SortFn) (g : Growth) (s : St) (k : Bytes) (asc : Bool) (
     Option St :=
   (sortAnyTable srt g s.table k asc k2 asc2).map (fun t => { s with table := t })
 
+/-- `Iterate(h)`: unpack; nothing for an empty table; otherwise `h(keys, lists, i)` for every `i`
+    below the size of the FIRST column.  The answer: the keys handed over and the number of calls. -/
+def iterate (g : Growth) (s : St) : Option (St × Option (List Bytes × Nat)) :=
+  match unpack g s with
+  | none => none
+  | some s' => match s'.table with
+    | [] => some (s', none)
+    | e :: _ => some (s', some (s'.table.map (fun x => x.1), e.2.l.size))
+
+/-- what `ToString()` shows of the lazy state: `data.Size()`, `dataBytesSize`, `len(dataBytes)` -/
+def sizes (s : St) : Nat × Nat × Nat := (s.table.length, s.rawSize, s.raw.length)
+
 /-! ### what the histories rely on -/
 
 /-- Write with an empty cache encodes the CURRENT in-memory table -/
@@ -99,6 +111,30 @@ theorem unpack_clears_cache (g : Growth) (s s' : St) (h : unpack g s = some s') 
   · split at h
     · cases h; rfl
     · cases h
+
+/-- Iterate is an unpacking access: it leaves the state `unpack` leaves (cache empty), hands over the
+    keys of the merged table and calls once per row of the first column -/
+theorem iterate_spec (g : Growth) (s s' : St) (r : Option (List Bytes × Nat)) (h : iterate g s = some (s', r)) :
+    unpack g s = some s' ∧ s'.raw = [] ∧
+    r = (match s'.table with
+      | [] => none
+      | e :: _ => some (s'.table.map (fun x => x.1), e.2.l.size)) := by
+  unfold iterate at h
+  cases hu : unpack g s with
+  | none => simp [hu] at h
+  | some u =>
+    simp only [hu] at h
+    cases ht : u.table with
+    | nil =>
+      simp only [ht, Option.some.injEq, Prod.mk.injEq] at h
+      obtain ⟨h1, h2⟩ := h
+      subst h1; subst h2
+      exact ⟨rfl, unpack_clears_cache g s u hu, by simp [ht]⟩
+    | cons e rest =>
+      simp only [ht, Option.some.injEq, Prod.mk.injEq] at h
+      obtain ⟨h1, h2⟩ := h
+      subst h1; subst h2
+      exact ⟨rfl, unpack_clears_cache g s u hu, by simp [ht]⟩
 
 theorem put_keeps_wire (s : St) (k : Bytes) (c : Col) : (put s k c).raw = s.raw ∧ (put s k c).rawSize = s.rawSize :=
   ⟨rfl, rfl⟩
